@@ -53,7 +53,33 @@ func ruleCandidates(fd protoreflect.FieldDescriptor) []protoreflect.Value {
 				try(protoreflect.ValueOfString(strings.Repeat("a", int(r.GetMinLen()))))
 			}
 		}
-	case protoreflect.MessageKind, protoreflect.GroupKind, protoreflect.BytesKind, protoreflect.BoolKind, protoreflect.EnumKind:
+	case protoreflect.BytesKind:
+		if r := fr.GetBytes(); r != nil {
+			// lengths at and next to every bound (not multiples of 3 included: unpadded encodings differ there), bytes that
+			// encode to the characters on which the base64 alphabets differ
+			mk := func(n uint64) protoreflect.Value {
+				b := make([]byte, n)
+				for i := range b {
+					b[i] = byte(0xf8 + i%8)
+				}
+				return protoreflect.ValueOfBytes(b)
+			}
+			var lens []uint64
+			for _, b := range []*uint64{r.Len, r.MinLen, r.MaxLen} {
+				if b != nil {
+					lens = append(lens, *b, *b+1, *b+2)
+					if *b > 0 {
+						lens = append(lens, *b-1)
+					}
+				}
+			}
+			for _, n := range lens {
+				if n <= 64 {
+					try(mk(n))
+				}
+			}
+		}
+	case protoreflect.MessageKind, protoreflect.GroupKind, protoreflect.BoolKind, protoreflect.EnumKind:
 	default:
 		// numeric: probe a small lattice around every bound mentioned by the rules
 		frm := fr.ProtoReflect()
@@ -79,7 +105,7 @@ func ruleCandidates(fd protoreflect.FieldDescriptor) []protoreflect.Value {
 			}
 		}
 	}
-	if len(out) > 3 {
+	if len(out) > 3 && fd.Kind() != protoreflect.BytesKind {
 		out = out[:3]
 	}
 	return out
